@@ -335,9 +335,7 @@ errreturn:
 
 func fileFlushAux(L *LState, file *lFile) int {
 	errorIfFileIsClosed(L, file)
-	if n := fileIsWritable(L, file); n != 0 {
-		return n
-	}
+	// nothing to write out on a handle that is only read: success, as fflush
 
 	if bwriter, ok := file.writer.(*bufio.Writer); ok {
 		if err := bwriter.Flush(); err != nil {
@@ -597,10 +595,11 @@ func fileSetVBuf(L *LState) int {
 	var writer io.Writer
 	file := checkFile(L)
 	errorIfFileIsClosed(L, file)
-	if n := fileIsWritable(L, file); n != 0 {
-		return n
-	}
 	mode := filebufOptions[L.CheckOption(2, filebufOptions)]
+	if file.writer == nil { // only read: there is no writer to buffer; success, as setvbuf
+		L.Push(LTrue)
+		return 1
+	}
 	// bytes held by the writer being replaced must not be lost
 	if bwriter, ok := file.writer.(*bufio.Writer); ok {
 		if err = bwriter.Flush(); err != nil {
